@@ -49,7 +49,18 @@ def qbytes_int_mm(activations: torch.Tensor, weights: torch.Tensor, output_scale
     return fp32_output.to(output_scales.dtype)
 
 
+def _dense_aligned(t: torch.Tensor) -> torch.Tensor:
+    # A fresh copy is dense and aligned on the allocator boundary (64 bytes)
+    if t.is_contiguous() and t.data_ptr() % 64 == 0:
+        return t
+    return t.clone(memory_format=torch.contiguous_format)
+
+
 def qbytes_int8pack_mm(activations: torch.Tensor, weights: torch.Tensor, output_scales: torch.Tensor) -> torch.Tensor:
+    # torch._weight_int8pack_mm reads its operands by aligned blocks on CPU (it crashes on views
+    # whose rows do not start on a 32 bytes boundary): it requires dense, aligned operands
+    activations = _dense_aligned(activations)
+    weights = _dense_aligned(weights)
     # torch._weight_int8pack_mm expects a vector of scales, one per output feature
     output_scales = output_scales.flatten()
     if output_scales.numel() == 1:
